@@ -134,6 +134,19 @@ func deepCases(c *core.Ctx) []srcCase {
 			}
 		}
 	}
+	// interpolating strings more than 1024 block levels deep
+	nb := 1100
+	if c.Thorough() {
+		nb = 5000
+	}
+	for _, src := range corpus.DeepBraces(nb) {
+		for _, v := range []string{"7.4", "5.6"} {
+			cs := mkCase(src, parseVer(v), "interpolating strings "+itoa(nb)+" block levels deep")
+			cs.Text = clipS(cs.Text, 120)
+			cs.Block = drive.ProdBlock
+			out = append(out, cs)
+		}
+	}
 	// wide programs: every construct more than 1024 times in one parse (production blocks), under the parser that has it
 	for _, src := range corpus.WidePrograms(1100) {
 		for _, v := range []string{"7.4", "5.6"} {
